@@ -322,6 +322,30 @@ def run(sc, ctx):
         if incell and T2 != T1:
             d = [(x, y) for x, y in zip(T1.split('\n'), T2.split('\n')) if x != y][:3]
             bad('rewrite', 'T2!=T1:' + (d[0][0].split()[0] if d and d[0][0].split() else '?'), 'writing the re-read structure gives different text for an in-cell input: %r' % (d,), T1=T1, T2=T2)
+    if sc['kind'] == 'write' and a.cell is not None and sc['fr'] in (0, 1) and sc['ch'] == 0:
+        # histories: the object was written before; what is written next must state its content *now*
+        def states_now(obj, what):
+            t, e = call(save, obj, fract); out['evals'] += 1; out['compared'] += 1
+            if e:
+                bad('write', 'history-exc:' + exc_sig(e), '%s: save_p1_cif raised %r' % (what, e[0])); return
+            for x in text_states(obj, t, fract)[:2]:
+                bad('text-states-structure', 'history:' + x.split(' ')[0], '%s: %s' % (what, x), text=t)
+        h = a.copy(); call(save, h, fract); call(h.cell_abc_alpha_beta_gamma)
+        r, e = call(h.replicate, (2, 1, 1))
+        if not e:
+            states_now(r, 'written, replicated 2x1x1, the replica written')
+        h.cell = np.asarray(h.cell, float) * np.array([[1.0], [1.5], [1.0]])
+        states_now(h, 'written, then the cell was stretched along b, written again')
+        h.positions[:] = np.asarray(h.positions) * 0.5
+        states_now(h, 'written, then the positions were scaled in place, written again')
+        # a copy extended by a fragment that brings a new extra column: the original must still be written as before
+        o = a.copy(); cp = o.copy()
+        g = Atoms(elements=['He'], positions=[(0.3, 0.3, 0.3)], extra_atom_labels=['_atom_site_occupancy_x'], extra_atom_fields=[('0.5',)])
+        _, e = call(cp.extend, g)
+        if not e:
+            t, e2 = call(save, o, fract); out['evals'] += 1; out['compared'] += 1
+            if e2 or t != T1:
+                bad('write', 'history:copy-extended', 'a copy() of the structure was extended by an atom with a new extra column; writing the original afterwards %s' % ('raised %r' % (e2[0],) if e2 else 'gives another text than before'))
     nk = sum(1 for x in TSHAPES[sc['ts']] if x)
     out['outcomes']['kinds=%d xcols=%d %s %s' % (nk, sc['xc'], 'fract' if fract else 'cart', 'incell' if incell else 'wrapped')] = 1
     out['nontrivial'] = 1 if (nk >= 2 or sc['xc']) else 0
